@@ -395,6 +395,34 @@ def run(ctx):
              'YAML yields such keys (1:, true:): it is not converted',
              ctx.loc(vf))
 
+    # ---- R8 explicit raises escaping the validation entry points ------------------------
+    r8 = ctx.rule('R8', 'every explicit raise that can escape a definition '
+                  'parsing entry point is a DSLParsingException',
+                  'WMW-reach (exception escape)')
+    from mstatic.escape import Escapes
+    es = Escapes(prog, ctx.cg)
+    roots = [PARSER + '.' + n for n in (
+        'get_workbook_spec_from_yaml', 'get_workflow_list_spec_from_yaml',
+        'get_action_list_spec_from_yaml', 'get_workflow_spec_from_yaml',
+        'get_action_spec_from_yaml')]
+    total = 0
+    for rq in roots:
+        prog.func(rq)
+        esc = es.raised.get(rq, {})
+        total += len(esc)
+        bad = sorted((cls, site) for (cls, site) in esc
+                     if not any(x.endswith('.DSLParsingException')
+                                for x in es.supers(cls)))
+        r8.check(not bad, rq + ' :: escaping raises',
+                 'explicit raises that are not definition errors can escape '
+                 'validation: %s' % ['%s @ %s' % (c.rsplit('.', 1)[-1], s_)
+                                     for c, s_ in bad][:4], prog.loc(rq),
+                 '%d escaping raise sites, all DSLParsingException'
+                 % len(esc))
+    if total < 20:
+        raise AnalysisError('C14.R8: escape analysis lost the raise sites '
+                            '(%d)' % total)
+
     # ---- R5 regular expressions (thorough) ---------------------------------------------------
     if ctx.tier == 'thorough':
         r5 = ctx.rule('R5', 'regular expressions applied to definition '
